@@ -118,6 +118,28 @@ fn k_apply(m: &Path, op: &Op, held: &mut BTreeMap<String, i32>) -> Result<(), i3
                 Ok(())
             }
         }
+        Op::Fallocate(p, keep, off, len) => {
+            let md = fs::symlink_metadata(m.join(p)).map_err(|e| e.raw_os_error().unwrap_or(libc::EIO))?;
+            if md.is_dir() {
+                return Err(libc::EISDIR);
+            }
+            if !md.is_file() {
+                return Err(libc::EINVAL);
+            }
+            let c = k_cstr(&m.join(p));
+            let fd = unsafe { libc::open(c.as_ptr(), libc::O_RDWR | libc::O_NOFOLLOW) };
+            if fd < 0 {
+                return Err(k_errno());
+            }
+            let n = unsafe { libc::fallocate(fd, if *keep { libc::FALLOC_FL_KEEP_SIZE } else { 0 }, *off as i64, *len as i64) };
+            let e = k_errno();
+            unsafe { libc::close(fd) };
+            if n < 0 {
+                Err(e)
+            } else {
+                Ok(())
+            }
+        }
         Op::Chmod(p, perm) => {
             let md = fs::symlink_metadata(m.join(p)).map_err(|e| e.raw_os_error().unwrap_or(libc::EIO))?;
             if md.file_type().is_symlink() {
